@@ -161,7 +161,11 @@ def run(R: vlib.Run):
               "every factor 1..n, every shape up to D x D x every factor pair, both methods, three dtypes, 1-D / 2-D / flat / kernels / "
               "parallel kernels; every call is followed by a bit-identity check of the array it was given; histories of 2-5 calls on ONE "
               "array / TimeSeries / block (all ordered pairs for n = 5, 8, 13, then random) are compared with the definition on the original data; detrend: lengths 1..N, three dtypes, plus lengths around 2^16 and beyond the int64 limit of the closed "
-              "form; TimeSeries.deredden/downsample and FilterbankBlock.downsample on non-square shapes.  A case is non-trivial if "
+              "form; TimeSeries.deredden/downsample and FilterbankBlock.downsample on non-square shapes; every API again on strided / reversed / "
+              "Fortran-ordered / transposed / read-only arrays, on signed binary fractions (k/8) in the floating dtypes, with windows of 5n .. 64n+1 and "
+              "1526 bins for n <= 8, deredden windows a quarter bin off w bins for three sampling times and with fast=True below 202 bins, one "
+              "float32 pedestal block with groups of 8192.  An integer result is accepted only from the APIs that store the mean into the "
+              "input's dtype (the compiled kernels and their wrappers), never from the NumPy paths or a median.  A case is non-trivial if "
               "the input has >= 2 samples; distinct = distinct (function, shape, parameters, dtype, method)")
     R.trusted += [
         "Coq 8.16.1 kernel + vm_compute (correspondence, witnesses, examples)",
@@ -175,7 +179,14 @@ def run(R: vlib.Run):
     ]
     R.assume += ["numba compiles the kernels according to their Python text",
                  "sample values are integers with exactly representable sums (the generators guarantee it)",
-                 "TimeSeries.deredden converts seconds to bins with round(window / tsamp); only whole-bin windows are exercised"]
+                 "TimeSeries.deredden converts seconds to bins with round(window / tsamp); windows within a quarter of a bin of a whole number "
+                 "of bins are exercised (three sampling times), exact half-bin windows (Python's round-half-even) are not",
+                 "decimation factors are Python ints: the decimators refuse NumPy integer scalars (np.int64(3)) with ValueError "
+                 "(isinstance(factor, int)); the generators draw every factor from range() / randrange()",
+                 "TimeSeries.deredden(fast=True) is held to the definition only below 2 * min_points = 202 bins, where running_filter_fast "
+                 "does not decimate (ds_factor == 1); its approximate regime above that width is outside the property",
+                 "float32 group means of non-integer data are held to rtol 1e-5 on the NumPy paths (np.mean accumulates a float32 block in "
+                 "float32: 2e-6 measured on a 1000 +- 10 pedestal with 4096-sample groups) and to 1e-6 on the compiled kernels (float64 accumulator)"]
     proved = R.prove("Props/C14.v")
 
     rng = R.rng
@@ -496,6 +507,8 @@ def run(R: vlib.Run):
                         corr_ds.append(("blk", False, False, L(x.astype(np.int64)), [nchans, nsamps, ff, tf],
                                         [int(round(float(v) * ff * tf)) for v in np.asarray(out).ravel()]))
     # ---- 5b. regimes of the quantifier that the lattice sweeps above do not reach (same definitions, own failure keys) ------------
+    import time as _time
+    _t5b = _time.time()
     # memory layouts (a block read from a file is a TRANSPOSED view, its rows are strided, a memmap is read-only), signed binary
     # fractions in the floating dtypes, windows many times longer than the series, the seconds -> bins conversion of deredden away
     # from whole bins and its `fast` flag below the width where running_filter_fast starts to decimate, one pedestal block whose
@@ -761,6 +774,8 @@ def run(R: vlib.Run):
             expect("pedestal-kernel-accumulator", ("ped", kname, f), "pedestal", f"{kname} (float64 accumulator, one rounding) is further than 1e-6 from the group mean", case,
                    call, spec_ds1(xp.ravel(), f, "mean"), rtol=1e-6)
 
+    R.extra_cov["regime_sweep_seconds"] = round(_time.time() - _t5b, 1)
+
     # ---- 6. histories on ONE object: every result must be the definition applied to the ORIGINAL data -------------------------
     def step_1d(x, x0, op):
         """run one operation on the (possibly already modified) array x; return (api, got, expected-from-x0, in dtype)"""
@@ -962,7 +977,9 @@ def scale_input(seed, kind, n, dtype, cap=255):
     The first n entries of one fixed stream u of SCALE_NBASE uniform bytes, mapped to integer values so that the definitions are exact:
     uniform: 0..cap (cap <= 255) | high: the top fifth of 0..cap (uint8: 204..255) | ramp: ((3 i + 7) mod 251) mod (cap + 1), position
     dependent with an odd period | wide: multiples of cap // 255 up to cap (float dtypes, cap > 255) | big: 2**30 + u (float64: a float32
-    accumulator cannot hold it) | huge: finfo(dtype).max / 4 * (0.5 + u / 512), positive values next to the top of a float dtype"""
+    accumulator cannot hold it) | huge: finfo(dtype).max / 4 * (0.5 + u / 512), positive values next to the top of a float dtype |
+    dyadic: (u - 128) / 8, signed binary fractions in [-16, 16) (float dtypes; every sum of up to 2**24 of them is exact in float64).
+    A case with a "layout" entry applies that view to the generated array (`scale_layout`): the stream is then as long as the view needs."""
     seed, n, cap = int(seed), int(n), int(cap)
     u = _SCALE_BASE.get(seed)
     if u is None:
@@ -985,9 +1002,32 @@ def scale_input(seed, kind, n, dtype, cap=255):
         a = u.astype(np.int64) + (1 << 30)
     elif kind == "huge":
         a = (0.5 + u.astype(np.float64) / 512.0) * (float(np.finfo(dt).max) / 4.0)
+    elif kind == "dyadic":
+        a = (u.astype(np.float64) - 128.0) / 8.0
     else:
         raise ValueError(f"scale_input: unknown kind {kind}")
     return np.ascontiguousarray(a.astype(dt))
+
+
+def scale_layout(a, layout, shape=None):
+    """the memory layouts of the at-scale search, applied to the array `scale_input` returned (replay: scale_layout(scale_input(**case["input"]),
+    case["layout"], case.get("shape"))).  1-D (shape None): C | strided = a[1::2] (the stream has 2 n + 1 samples) | reversed = a[::-1] |
+    readonly.  2-D (shape (d1, d2)): C = a.reshape(d1, d2) | transposed = a.reshape(d2, d1).T (what FilReader.read_block hands to
+    FilterbankBlock: Fortran-contiguous) | strided = a.reshape(d1, 2 d2)[:, ::2] (the stream has 2 d1 d2 samples)"""
+    if shape is None:
+        if layout == "strided":
+            return a[1::2]
+        if layout == "reversed":
+            return a[::-1]
+        if layout == "readonly":
+            a.setflags(write=False)
+        return a
+    d1, d2 = shape
+    if layout == "transposed":
+        return a.reshape(d2, d1).T
+    if layout == "strided":
+        return a.reshape(d1, 2 * d2)[:, ::2]
+    return a.reshape(d1, d2)
 
 
 def _scale_diff(out, exp, in_dtype=None, small_dtype=None):
@@ -1050,7 +1090,8 @@ def _scale_search(R: vlib.Run):
     tsamp = 0.00032768
     P16, P18, P20, P22, P24 = (1 << k for k in (16, 18, 20, 22, 24))
     DT = dict(DTYPES)
-    GEN = "props/c14.py: scale_input(**case['input']) (reshape to case['shape'] if present); the search is scale()"
+    GEN = ("props/c14.py: scale_layout(scale_input(**case['input']), case.get('layout', 'C'), case.get('shape')) (without a layout: reshape to "
+           "case['shape'] if present); the search is scale()")
     F24 = (1 << 24) - 1            # integer-valued float32 sums are exact up to here
     timing = {}
     t_all = time.time()
@@ -1077,9 +1118,10 @@ def _scale_search(R: vlib.Run):
 
     def untouched(x, x0, api, case):
         """(a) of `run`: a filter / decimator leaves the array it was given bit-identical"""
-        if not np.array_equal(x.reshape(-1).view(np.uint8), x0.reshape(-1).view(np.uint8)):
+        xb, x0b = np.ascontiguousarray(x).reshape(-1).view(np.uint8), np.ascontiguousarray(x0).reshape(-1).view(np.uint8)   # no copy of a contiguous array
+        if not np.array_equal(xb, x0b):
             R.fail(f"scale-input-mutated-{api}", f"{api} modified the large array it was given (a filter / decimator must leave its input bit-identical)",
-                   dict(case, first_changed_byte=int(np.flatnonzero(x.reshape(-1).view(np.uint8) != x0.reshape(-1).view(np.uint8))[0])))
+                   dict(case, first_changed_byte=int(np.flatnonzero(xb != x0b)[0])))
             x[...] = x0
 
     def header(nchans, nsamps, data_type):
@@ -1137,20 +1179,23 @@ def _scale_search(R: vlib.Run):
         _, first = np.unique(cand, return_index=True)
         return np.sort(cand[np.sort(first)][:budget])
 
-    def rf_case(n, w, dname, kind, cap=255, methods=METHODS, deredden=None):
+    def rf_case(n, w, dname, kind, cap=255, methods=METHODS, deredden=None, layout="C"):
         t0 = time.time()
-        i = inp(kind, n, dname, cap)
-        x = make(i)
+        i = inp(kind, 2 * n + 1 if layout == "strided" else n, dname, cap)
+        x = scale_layout(make(i), layout)
         x0 = x.copy()
-        p = padded(x, w)
+        p = padded(x0, w)
+        q = 8 if kind == "dyadic" else 1          # binary fractions k / 8: the exact moving sum is taken over the integers k
         c = np.zeros(len(p) + 1, dtype=np.int64)
-        np.cumsum(p.astype(np.int64), out=c[1:])
-        exp_mean = (c[w:] - c[:-w]) / float(w)
+        np.cumsum((p.astype(np.float64) * q).astype(np.int64) if q != 1 else p.astype(np.int64), out=c[1:])
+        exp_mean = (c[w:] - c[:-w]) / float(w * q)
         del c
         P = rf_positions(n, w)
         for method in methods:
             case = {"api": "running_filter", "input": i, "window": w, "method": method, "generator": GEN}
-            R.case(("scale", "rf", n, w, dname, kind, cap, method), regime="scale")
+            if layout != "C":
+                case["layout"] = layout
+            R.case(("scale", "rf", n, w, dname, kind, cap, method, layout), regime="scale")
             out = attempt(f"running_filter-{method}", case, lambda: stats.running_filter(x, w, method))
             untouched(x, x0, "running_filter", case)
             if out is None:
@@ -1178,7 +1223,9 @@ def _scale_search(R: vlib.Run):
                 exp_full = None
             if deredden and (deredden == "both" or method == deredden) and dname == "float32" and round(w * tsamp / tsamp) == w:
                 dcase = {"api": "TimeSeries.deredden", "input": i, "window_bins": w, "tsamp": tsamp, "method": method, "generator": GEN}
-                R.case(("scale", "dered", n, w, kind, cap, method), regime="scale")
+                if layout != "C":
+                    dcase["layout"] = layout
+                R.case(("scale", "dered", n, w, kind, cap, method, layout), regime="scale")
                 ts = TimeSeries(x, header(1, n, "time series"))
                 got = attempt(f"deredden-{method}", dcase, lambda: ts.deredden(method, window=w * tsamp).data)
                 untouched(x, x0, "TimeSeries.deredden", dcase)
@@ -1218,14 +1265,21 @@ def _scale_search(R: vlib.Run):
     for n, w, dname, kind, cap, methods, dered in rf_table:
         rf_case(n, w, dname, kind, cap, methods=methods, deredden=dered)
         gc.collect()
+    # signed binary fractions; a series held as a strided / reversed / read-only view (a row of a block as read from a file, a memmap)
+    rf_case(P16 + 1, 101, "float64", "dyadic")
+    rf_case(P18 + 1, 16385, "float32", "dyadic", deredden=BOTH)
+    rf_case(P18 + 1, 101, "float32", "uniform", deredden=BOTH, layout="strided")
+    rf_case(P20 + 1, 4, "float64", "big", layout="reversed")
+    rf_case(P16 + 1, P16 + 2, "float32", "dyadic", deredden="mean", layout="readonly")
+    gc.collect()
     timing["A"] = round(time.time() - t_all, 1)
 
     # ---- B. decimation of a series -------------------------------------------------------------------------------------
-    def ds1_case(n, dname, kind, factors, median_factors, cap=255):
+    def ds1_case(n, dname, kind, factors, median_factors, cap=255, layout="C"):
         t0 = time.time()
         dt = DT[dname]
-        i = inp(kind, n, dname, cap)
-        x = make(i)
+        i = inp(kind, 2 * n + 1 if layout == "strided" else n, dname, cap)
+        x = scale_layout(make(i), layout)
         x0 = x.copy()
         ts = TimeSeries(x, header(1, n, "time series")) if dname == "float32" else None
         for f in factors:
@@ -1248,7 +1302,9 @@ def _scale_search(R: vlib.Run):
                     apis += [("TimeSeries.downsample", lambda: ts.downsample(f, method).data)]
                 for api, fn in apis:
                     case = {"api": api, "input": i, "factor": f, "method": method, "generator": GEN}
-                    R.case(("scale", api, n, f, dname, kind, method), regime="scale")
+                    if layout != "C":
+                        case["layout"] = layout
+                    R.case(("scale", api, n, f, dname, kind, method, layout), regime="scale")
                     key = {"downsample_1d": f"downsample_1d-{method}", "TimeSeries.downsample": f"timeseries-downsample-{method}"}.get(api, "kernel-" + api.split(".")[-1])
                     out = attempt(key, case, fn)
                     untouched(x, x0, api, case)
@@ -1283,10 +1339,17 @@ def _scale_search(R: vlib.Run):
     for n, dname, kind, factors, medf in ds1_table:
         ds1_case(n, dname, kind, factors, medf)
         gc.collect()
+    ds1_case(P16 + 1, "float32", "dyadic", (7, 256, P16 + 1), (7,))
+    ds1_case(P20 + 1, "float64", "dyadic", (3, P16 + 1), (3,))
+    ds1_case(P20 + 1, "float32", "uniform", (3, P16 + 1, P20 + 1), (3,), layout="strided")
+    ds1_case(P22 + 1, "uint8", "high", (2, 107, P22 + 1), (107,), layout="reversed")
+    ds1_case(P20 + 1, "float64", "big", (5, P16), (5,), layout="readonly")
+    ds1_case(P22 + 1, "uint8", "uniform", (3, 49), (49,), layout="strided")
+    gc.collect()
     timing["B"] = round(time.time() - t_all, 1)
 
     # ---- C. decimation of a block (2-D, flat, parallel kernel, FilterbankBlock) --------------------------------------------
-    def ds2_case(d1, d2, dname, kind, pairs, median_pairs):
+    def ds2_case(d1, d2, dname, kind, pairs, median_pairs, layout="C"):
         t0 = time.time()
         dt = DT[dname]
         for (f1, f2) in pairs:
@@ -1295,9 +1358,9 @@ def _scale_search(R: vlib.Run):
                 cap = min(255, F24 // (f1 * f2))
                 if cap < 1:
                     continue
-            i = inp(kind, d1 * d2, dname, cap)
-            x = make(i).reshape(d1, d2)
-            x0 = x.copy()
+            i = inp(kind, (2 if layout == "strided" else 1) * d1 * d2, dname, cap)
+            x = scale_layout(make(i), layout, (d1, d2))
+            x0 = np.array(x, order="C", copy=True)
             m1, m2 = d1 // f1, d2 // f2
             g4 = x0[:m1 * f1, :m2 * f2].reshape(m1, f1, m2, f2)
             blk = FilterbankBlock(x, header(d1, d2, "filterbank")) if dname == "float32" else None
@@ -1315,15 +1378,18 @@ def _scale_search(R: vlib.Run):
                     v = float(op(x0[a * f1:(a + 1) * f1, b * f2:(b + 1) * f2].astype(np.float64)))
                     if abs(v - exp[a, b]) > 1e-9 * max(1.0, abs(v)):
                         raise AssertionError(f"scale(): vectorised reference differs from the definition at group {(a, b)} of {(d1, d2, f1, f2, dname, method)}")
-                apis = [("downsample_2d", lambda: stats.downsample_2d(x, (f1, f2), method), False),
-                        ("downsample_2d_flat", lambda: stats.downsample_2d_flat(x.reshape(-1), f1, f2, d1, d2, method), True)]
-                if method == "mean":
+                apis = [("downsample_2d", lambda: stats.downsample_2d(x, (f1, f2), method), False)]
+                if layout == "C":          # the flat APIs take a 1-D array: x.reshape(-1) of another layout would be a fresh contiguous copy
+                    apis += [("downsample_2d_flat", lambda: stats.downsample_2d_flat(x.reshape(-1), f1, f2, d1, d2, method), True)]
+                if method == "mean" and layout == "C":
                     apis += [("kernels.downsample_2d_mean_parallel", lambda: kernels.downsample_2d_mean_parallel(x.reshape(-1), f1, f2, d1, d2), True)]
                 if blk is not None:
                     apis += [("FilterbankBlock.downsample", lambda: blk.downsample(f1, f2, method).data, False)]
                 for api, fn, flat in apis:
                     case = {"api": api, "input": i, "shape": [d1, d2], "factors": [f1, f2], "method": method, "generator": GEN}
-                    R.case(("scale", api, d1, d2, f1, f2, dname, kind, method), regime="scale")
+                    if layout != "C":
+                        case["layout"] = layout
+                    R.case(("scale", api, d1, d2, f1, f2, dname, kind, method, layout), regime="scale")
                     key = {"downsample_2d": f"downsample_2d-{method}", "downsample_2d_flat": f"downsample_2d_flat-{method}",
                            "FilterbankBlock.downsample": f"block-downsample-{method}"}.get(api, "kernel-" + api.split(".")[-1])
                     out = attempt(key, case, fn)
@@ -1358,18 +1424,28 @@ def _scale_search(R: vlib.Run):
     ]
     for d1, d2, dname, kind, pairs, medp in ds2_table:
         ds2_case(d1, d2, dname, kind, pairs, medp)
+    ds2_case(1024, 4100, "float32", "dyadic", ((4, 8), (1024, 4)), ((4, 8),))
+    ds2_case(1024, 4100, "float64", "dyadic", ((3, 5),), ())
+    # a block as FilReader.read_block hands it over (a transposed view: Fortran-contiguous) and a block that is every second column of a wider one
+    ds2_case(1024, 4100, "uint8", "uniform", ((3, 5), (4, 8)), ((4, 8),), layout="transposed")
+    ds2_case(1024, 4100, "float32", "uniform", ((4, 8), (1024, 4)), ((4, 8),), layout="transposed")
+    ds2_case(4096, 4097, "float32", "uniform", ((3, 5),), (), layout="transposed")
+    ds2_case(2050, 2048, "float64", "ramp", ((7, 7),), (), layout="strided")
+    ds2_case(2050, 2048, "uint8", "high", ((2, 2048), (7, 7)), ((7, 7),), layout="strided")
     timing["C"] = round(time.time() - t_all, 1)
 
     # ---- D. detrend ---------------------------------------------------------------------------------------------------
-    def det_case(m, dname, kind, slope=0.0):
+    def det_case(m, dname, kind, slope=0.0, layout="C"):
         t0 = time.time()
-        i = inp(kind, m, dname)
-        x = make(i)
+        i = inp(kind, 2 * m + 1 if layout == "strided" else m, dname)
+        x = scale_layout(make(i), layout)
         if slope:
             x = x + slope * np.arange(m)            # float64 only: a steep line whose index term needs more than 24 bits
         x0 = x.copy()
         case = {"api": "kernels.detrend_1d", "input": i, "added_line": f"+ {slope} * arange(n)" if slope else None, "generator": GEN}
-        R.case(("scale", "detrend", m, dname, kind, slope), regime="scale")
+        if layout != "C":
+            case["layout"] = layout
+        R.case(("scale", "detrend", m, dname, kind, slope, layout), regime="scale")
         out = attempt("detrend_1d", case, lambda: kernels.detrend_1d(x))
         untouched(x, x0, "kernels.detrend_1d", case)
         if out is None:
@@ -1409,6 +1485,10 @@ def _scale_search(R: vlib.Run):
                                   (P24 + 5, "float32", "uniform", 0), (P24 + 5, "uint8", "uniform", 0), (P24 + 5, "float64", "uniform", 1.0)]:
         det_case(m, dname, kind, slope)
         gc.collect()
+    det_case(P18 + 1, "float64", "dyadic")
+    det_case(P20 + 1, "float32", "dyadic", layout="strided")
+    det_case(P20 + 1, "uint8", "uniform", layout="reversed")
+    gc.collect()
     timing["D"] = round(time.time() - t_all, 1)
 
     # ---- E. long histories on ONE large object: every result is the definition on the ORIGINAL data ------------------------
